@@ -53,6 +53,14 @@ FIXED = {
     "executor starmap fallback": ("C65", "starmap on cf_threadpool / cf_procpool: kwargs handed to list(), single-parameter functions called once with all items"),
     "to_openqasm(measure_all=False) measures": ("C67", "to_openqasm(measure_all=False, wires=...) measured q[tape.wires.index(w)] instead of q[wires.index(w)]"),
     "parameter-shift gradients of var(Sum": ("C34", "parameter-shift Jacobian of var(Sum / LinearCombination) ignored the d<A^2> term (wrong by ~2x)"),
+    "commute_controlled works on a copy": ("C18", "commute_controlled reordered the operations of its input tape in place"),
+    "integer * MeasurementValue accepts plain": ("C21", "KeyError in MeasurementValue.__rmul__ for Python bool branch values (regression of the earlier __rmul__ repair, found by C21)"),
+    "GlobalPhase declares ndim_params": ("C33", "GlobalPhase with a batched parameter had batch_size None (wrong values/shapes after decomposing a batched PhaseShift)"),
+    "default.clifford maps SX": ("C33", "default.clifford accepted SX in preprocessing and raised 'Gate not found' at execution"),
+    "adjoint_jvp / adjoint_vjp bring the tape": ("C73", "adjoint_jvp / adjoint_vjp raised IndexError when tape.wires is a non-standard permutation of 0..n-1"),
+    "composite operators use eigh": ("C01", "composite eigendecomposition via eig gave non-unitary diagonalizing gates for degenerate Hermitian sums/products (wrong expval(O @ O))"),
+    "default.clifford density_matrix conjugates": ("C70", "default.clifford density_matrix was psi psi^T instead of psi psi^dagger"),
+    "fuse_rot_angles clips": ("C17", "single_qubit_fusion produced Rot(.., nan, ..) when rounding pushed the fused cosine magnitude outside [0, 1]"),
     "IntegerComparator(geq=False) matrix": ("C10", "IntegerComparator(value > 2**n, geq=False).matrix() raised ValueError"),
 }
 
@@ -83,7 +91,7 @@ KNOWN = [
     ("C45", None, {"sig": "indices-str"}, "Wires.indices('ab') iterates a string label character by character although str is documented as accepted"),
     ("C08", "says-commute-but-matrices-do-not", {"sig": "re:(CSWAP|SWAP|ISWAP|SISWAP|PSWAP)\\|(CSWAP|SWAP|ISWAP|SISWAP|PSWAP)"},
      "is_commuting returns True for SWAP-family gates with partial wire overlap, e.g. CSWAP([0,1,2]) vs SWAP([2,3]) or PSWAP vs an overlapping PSWAP (lookup table ignores wire alignment)"),
-    ("C11", "emitted-type-not-declared", {"sig": "ctrl_single_work_wire:only-work_wires-differs"}, "ctrl_single_work_wire declares user work wires on the inner controlled ops but emits them without work wires"),
+    ("C11", "emitted-type-not-declared", {"sig": "re:(generic:)?ctrl_single_work_wire.*"}, "ctrl_single_work_wire declares user work wires on the inner controlled ops but emits them without work wires"),
     ("C11", "exact-count-mismatch", {"sig": "re:QAOAEmbedding:_qaoa_embedding_decomposition.*"}, "QAOAEmbedding on one wire declares `repeat` MultiRZ gates but emits none"),
     ("C11", "emitted-type-not-declared", {"sig": "any:only-mcx_alias-differs"}, "rules emit CNOT/Toffoli (qp.ctrl dispatch) where the resources declare MultiControlledX on 2/3 wires"),
     ("C11", "emitted-type-not-declared", {"sig": "re:OutMultiplier:_out_multiplier_with_qft.*"}, "OutMultiplier QFT rule with one output wire emits ChangeOpBasis(compute_op=Hadamard) but declares compute_op=Prod"),
